@@ -11,6 +11,18 @@ CHECKS = {
          "TLC exhaustive check of the RFC figure-3 layout + TLC trace validation of the complete Value/ReadValue tables dumped from the real code",
          "Complete-domain equality: TLC checks the round-trip/bijection properties of the figure-3 position table on all 16384 pairs and 65536 values, and a TLA+ trace specification compares every entry of the real code's tables with that reference. Exhaustive, so the property is decided for the whole domain.",
          "Trusted: the transcription of figure 3 into StunType.Layout, TLC, the Go harness that dumps the tables (records only)."),
+ "C13": (True, "DESIGN.md §4 C13",
+         "TLC exhaustive state graph of the Agent specification; every transition replayed on the real Agent (transition cover) and the recorded calls/results/events validated by a TLA+ trace specification; seeded random long sequences validated the same way",
+         "The Agent module is the property. TLC enumerates every reachable state and transition for 3 (quick) / 4 (thorough) ids, 4/5 time points and 2 handlers and checks exactly-one-terminal-event, silence after Close and stability on the design; each transition is then executed on a fresh real Agent and the recorded result and event multiset must be the model's (three monotone embeddings of the abstract time points, incl. extreme time values).",
+         "Trusted: AgentCore as the reading of the property text; TLC; the recording harness. Histories longer than the bound are covered by random sampling only."),
+ "C02": (True, "DESIGN.md §4 C02",
+         "TLC enumerates all length structures up to a body bound and checks grammar = recursive parser = scanning parser on them; the structures are instantiated and fed to the 7 decode entry points of the real code; a TLA+ trace specification compares verdict, header fields, TLV list, value bytes and Get/Contains/ForEach with the RFC 5389 reference parse",
+         "Equality with an independent executable RFC 5389 framing specification (StunWire) on every enumerated length structure (x buffer-length classes x capacities x entry points) and on seeded random / mutated / maximum-size inputs; the reference itself is model-checked for agreement between its declarative and algorithmic formulations.",
+         "Trusted: StunWire as the reading of RFC 5389 s6/s15; TLC; the recording harness. Inputs beyond the body bound are sampled, not enumerated."),
+ "C01": (True, "DESIGN.md §4 C01",
+         "same generator and drivers as C02; a TLA+ trace specification checks no panic / no hang / allocation bound / value views inside the declared body, ordered and disjoint / IsMessage, for every entry point and capacity",
+         "Totality and view-safety requirement monitor evaluated by TLC on every enumerated length structure and on random, mutated and maximum-size inputs, for all 7 entry points and two buffer capacities; panics are observed through recover, non-termination through a watchdog, allocation through runtime.MemStats.",
+         "Trusted: Go bounds checking (memory safety is observed as panics), MemStats accuracy, TLC, the harness. The allocation bound (64n+4096) is an interpretation of 'small multiple of the input'."),
 }
 
 ALL = ["C%02d" % i for i in range(1, 21)]
